@@ -167,7 +167,7 @@ fn set_weights(ctx: &mut Ctx, wt: &mut WeightTables, var: u64, r: &mut Rng) -> R
     let cl = Complex { re: r.below(5) as f64 / 2.0, im: r.below(5) as f64 / 2.0 - 1.0 };
     let ch = Complex { re: r.below(5) as f64 / 2.0, im: r.below(5) as f64 / 2.0 - 1.0 };
     // mostly short polynomials; sometimes the boundary lengths around the 32-coefficient limit, or none
-    let mut plen = |r: &mut Rng| -> u64 {
+    let plen = |r: &mut Rng| -> u64 {
         match r.below(12) {
             0 => *r.pick(&[0u64, 31, 32, 33, 40]),
             _ => 1 + r.below(3),
